@@ -9,7 +9,9 @@
 pub const MAXTR: usize = 24;
 /// Register block + configuration space the transport is pointed at (u32 words).
 pub const BLOCK_WORDS: usize = 96; // 0x000..0x180
-pub static mut BLOCK: [u32; BLOCK_WORDS] = [0; BLOCK_WORDS];
+#[repr(C, align(16))]
+pub struct AlignedBlock(pub [u32; BLOCK_WORDS]);
+pub static mut BLOCK: AlignedBlock = AlignedBlock([0; BLOCK_WORDS]);
 pub static mut TR_N: usize = 0;
 pub static mut TR_OFF: [usize; MAXTR] = [0; MAXTR];
 pub static mut TR_W: [bool; MAXTR] = [false; MAXTR];
@@ -29,7 +31,7 @@ pub static mut SEL_SRC_OFF: usize = 0;
 pub static mut SEL_VAL: [u32; 2] = [0; 2];
 
 pub fn block_ptr() -> *mut u8 {
-    unsafe { BLOCK.as_mut_ptr() as *mut u8 }
+    unsafe { BLOCK.0.as_mut_ptr() as *mut u8 }
 }
 pub fn tr_reset() {
     unsafe { TR_N = 0; }
